@@ -390,8 +390,12 @@ class C08(ZooProp):
                     _os.remove(p)
             env = dict(h.env, VERIF_TIER=tier, VERIF_SEED=str(seed), VERIF_SHARD=f"{i}/{h.shards}", VERIF_C08_CASES="1" if tier == "quick" else "6")
             rc, log, _ = core.run(["valgrind", "--quiet", "--error-exitcode=99", "--leak-check=no", h.bin, "--out", out, "--replay-out", rep], env=env, timeout=3 * 3600)
-            st_ = _j.load(open(out)) if _os.path.exists(out) else None
-            rp = _j.load(open(rep)) if _os.path.exists(rep) else None
+            def load(path):
+                try:
+                    return _j.load(open(path))
+                except Exception:  # noqa
+                    return None
+            st_, rp = load(out), load(rep)
             return rc, log, st_, rp
         res = core.parallel(one, list(range(h.shards)))
         viol, faults = 0, 0
@@ -496,7 +500,7 @@ class C16(E1Prop):
     pid = "C16"
     engine = "E6"
     technique = "generated thread workloads (rapidcheck) under ThreadSanitizer; per-thread result digests against a sequential execution; positive control"
-    rule = ("cases = (storage order in {row-major 2-D/3-D, Morton BMI2 2-D, Morton portable 3-D, Hilbert} x {no interpolator, nearest, linear} x "
+    rule = ("cases = (storage order in {row-major 2-D/3-D/4-D/5-D, Morton BMI2 2-D/4-D, Morton portable 3-D, Hilbert} x {no interpolator, nearest, linear} x "
             "optional affine layer, extents 2..9, T in 2..16 threads, one shared view or per-thread views, per-thread coordinate lists clustered so "
             "that threads touch the same storage elements; writer workloads on reference-returning stacks with the lattice points dealt round-robin "
             "to the threads = disjoint but adjacent elements). Oracle: ThreadSanitizer reports nothing (halt_on_error) and every thread's digest "
